@@ -491,3 +491,130 @@ def module_case(rnd, cid, auto=None):
 def module_cases(seed, n, start_id=1, auto=None):
     rnd = random.Random(seed)
     return [module_case(rnd, start_id + i, auto) for i in range(n)]
+
+
+# ---------------------------------------------------------------------------
+# expressions (C02): type-directed random trees over a fixed data vocabulary
+# ---------------------------------------------------------------------------
+
+EXPR_OBJS = {"o1": {"attrs": {"a": J.vint(1), "fx": J.vfn("fx", "nargs")},
+                    "items": {"a": J.vint(2), "b": J.vint(3)}},
+             "o2": {"attrs": {"a": J.vstr("A<")}, "items": {"c": J.vlist([J.vint(9)])}}}
+
+
+def expr_datas():
+    base = {"i1": J.vint(3), "i2": J.vint(-2), "z": J.vint(0), "s1": J.vstr("<a&b>"), "s2": J.vstr("x"),
+            "m1": J.vstr("<b>", "data", True), "l1": J.vlist([J.vint(1), J.vint(2), J.vint(3)]), "l2": J.vlist([]),
+            "l3": J.vlist([J.vstr("p<"), J.vint(4)]), "d1": J.vdict([(J.vstr("a"), J.vint(1)), (J.vstr("b"), J.vlist([J.vint(5)]))]),
+            "o1": J.vobj("o1"), "f1": J.vfn("f1", "nargs"), "f2": J.vfn("f2", "arg0", J.vint(7)),
+            "f3": J.vfn("f3", "const", J.vstr("r&")), "n0": J.VNONE, "t1": J.vbool(True)}
+    d2 = dict(base, i1=J.vint(0), i2=J.vint(5), s1=J.vstr(""), l1=J.vlist([J.vint(2)]), o1=J.vobj("o2"), t1=J.vbool(False),
+              d1=J.vdict([(J.vstr("c"), J.vint(0))]), m1=J.vstr("", "data", True))
+    d3 = {k: v for k, v in base.items() if k not in ("i2", "s2", "l3", "d1", "f2")}
+    d3["l1"] = J.vlist([J.vint(4), J.vint(0)], tup=True)
+    return [base, d2, d3]
+
+
+class ExprGen:
+    def __init__(self, rnd):
+        self.rnd = rnd
+
+    def pick(self, *xs):
+        return self.rnd.choice(xs)
+
+    def gint(self, d):
+        r = self.rnd.random()
+        if d <= 0 or r < 0.25:
+            return self.pick(C(0), C(1), C(2), C(3), N("i1"), N("i2"), N("z"), N("i1"))
+        if r < 0.5:
+            op = self.pick("+", "-", "*", "//", "%", "+", "-", "*", "**")
+            if op == "**":
+                return J.Bin(op, self.gint(d - 1), self.pick(C(0), C(1), C(2), C(3)))
+            return J.Bin(op, self.gint(d - 1), self.gint(d - 1))
+        if r < 0.56: return J.Neg(self.gint(d - 1))
+        if r < 0.62: return J.Filter(self.glist(d - 1), self.pick("length", "sum", "first", "last", "max", "min"))
+        if r < 0.68: return J.Call(N("f1"), [self.gany(d - 1) for _ in range(self.rnd.randint(0, 2))],
+                                   [("k", self.gany(d - 1))] if self.rnd.random() < 0.3 else [])
+        if r < 0.74: return J.Getitem(self.glist(d - 1), self.pick(C(0), C(1), J.Neg(C(1)), self.gint(0)))
+        if r < 0.8: return J.Cond(self.gbool(d - 1), self.gint(d - 1), self.gint(d - 1))
+        if r < 0.85: return J.Filter(self.gany(d - 1), "int")
+        if r < 0.9: return J.Filter(self.gint(d - 1), "abs")
+        if r < 0.95: return self.pick(J.Getattr(N("o1"), "a"), J.Getitem(N("o1"), C("a")), J.Getattr(N("o1"), "b"),
+                                      J.Getitem(N("o1"), C("b")), J.Getattr(N("d1"), "a"), J.Getitem(N("d1"), C("a")))
+        return J.Pos(self.gint(d - 1))
+
+    def gbool(self, d):
+        r = self.rnd.random()
+        if d <= 0 or r < 0.15:
+            return self.pick(C(True), C(False), N("t1"))
+        if r < 0.4:
+            ops = [(self.pick("eq", "ne", "lt", "lteq", "gt", "gteq"), self.gint(d - 1))]
+            if self.rnd.random() < 0.3:
+                ops.append((self.pick("lt", "lteq", "gt", "eq"), self.gint(d - 1)))
+            return J.Cmp(self.gint(d - 1), *ops)
+        if r < 0.5: return J.Not(self.gany(d - 1))
+        if r < 0.65:
+            return J.Test(self.gany(d - 1), self.pick("defined", "undefined", "none", "string", "number", "sequence", "mapping",
+                                                      "iterable", "boolean", "integer", "callable", "true", "false"),
+                          neg=self.rnd.random() < 0.3)
+        if r < 0.75: return J.Test(self.gint(d - 1), self.pick("odd", "even"))
+        if r < 0.82: return J.Test(self.gint(d - 1), "divisibleby", [self.pick(C(2), C(3), N("z"))])
+        if r < 0.92: return J.Cmp(self.gany(d - 1), (self.pick("in", "notin"), self.pick(self.glist(d - 1), N("d1"), N("u1"))))
+        return J.Cmp(self.gany(d - 1), (self.pick("eq", "ne"), self.gany(d - 1)))
+
+    def gstr(self, d):
+        r = self.rnd.random()
+        if d <= 0 or r < 0.3:
+            return self.pick(C("lit<"), C(""), N("s1"), N("s2"), N("m1"), C("q"))
+        if r < 0.5: return J.Concat(*[self.gany(d - 1) for _ in range(self.rnd.randint(2, 3))])
+        if r < 0.6: return J.Bin("+", self.gstr(d - 1), self.gstr(d - 1))
+        if r < 0.7: return J.Filter(self.glist(d - 1), "join", [self.gstr(d - 1)] if self.rnd.random() < 0.7 else [])
+        if r < 0.78: return J.Filter(self.gany(d - 1), "string")
+        if r < 0.86: return J.Filter(self.gany(d - 1), self.pick("e", "safe"))
+        if r < 0.92: return J.Filter(self.pick(N("u1"), N("s1"), self.gany(d - 1)), "default", [self.gstr(d - 1)] + ([C(True)] if self.rnd.random() < 0.4 else []))
+        if r < 0.96: return J.Call(N("f3"))
+        return J.Bin("*", self.gstr(d - 1), self.pick(C(0), C(2)))
+
+    def glist(self, d):
+        r = self.rnd.random()
+        if d <= 0 or r < 0.35:
+            return self.pick(N("l1"), N("l2"), N("l3"), J.List([C(1), C(2)]), J.List([]), N("l1"))
+        if r < 0.55: return J.List([self.gany(d - 1) for _ in range(self.rnd.randint(0, 3))], tup=self.rnd.random() < 0.2)
+        if r < 0.65: return J.Bin("+", self.glist(d - 1), self.glist(d - 1))
+        if r < 0.75: return J.Call(N("range"), [self.pick(C(0), C(2), C(3))])
+        if r < 0.85: return J.Filter(self.glist(d - 1), self.pick("list", "sort"))
+        if r < 0.92: return self.pick(J.Getattr(N("d1"), "b"), J.Getitem(N("d1"), C("b")), J.Getitem(N("o1"), C("c")))
+        return J.Bin("*", self.glist(d - 1), self.pick(C(0), C(2)))
+
+    def gany(self, d):
+        r = self.rnd.random()
+        if r < 0.25: return self.gint(d)
+        if r < 0.4: return self.gbool(d)
+        if r < 0.55: return self.gstr(d)
+        if r < 0.68: return self.glist(d)
+        if r < 0.74: return self.pick(N("u1"), N("u2"), N("n0"), C(None))
+        if r < 0.8: return (J.And if self.rnd.random() < 0.5 else J.Or)(self.gany(d - 1), self.gany(d - 1))
+        if r < 0.85 and d > 0: return J.Cond(self.gany(d - 1), self.gany(d - 1), self.gany(d - 1) if self.rnd.random() < 0.6 else None)
+        if r < 0.9: return self.pick(J.Getattr(N("o1"), "zz"), J.Getattr(N("u1"), "a"), J.Getitem(N("l1"), C(7)), J.Getitem(N("d1"), C("zz")),
+                                     J.Getattr(J.Getattr(N("o1"), "zz"), "y"), J.Getitem(N("n0"), C(0)), J.Getattr(N("i1"), "zz"))
+        if r < 0.94 and d > 0: return J.Call(N("f2"), [self.gany(d - 1)])
+        if r < 0.97: return J.Call(J.Getattr(N("o1"), "fx"), [self.gint(0)])
+        # deliberately ill-typed
+        return self.pick(J.Bin("+", self.gint(d - 1), self.gstr(d - 1)), J.Bin("-", self.glist(d - 1), self.gint(d - 1)),
+                         J.Neg(self.gstr(d - 1)), J.Call(self.gint(d - 1)), J.Cmp(self.gint(d - 1), ("lt", self.gstr(d - 1))),
+                         J.Bin("//", self.gint(d - 1), C(0)))
+
+
+def expr_cases(seed, n, start_id=1, depth=3, auto=None):
+    rnd = random.Random(seed)
+    g = ExprGen(rnd)
+    cases = []
+    datas = expr_datas()
+    for i in range(n):
+        a = rnd.random() < 0.5 if auto is None else auto
+        e = g.gany(rnd.randint(1, depth))
+        c = J.make_case(start_id + i, {"main": J.template([J.Out(e)], a)}, "main", datas, objs=EXPR_OBJS,
+                        undefined=rnd.choice(["default", "default", "default", "strict", "chainable"]))
+        c["emit_values"] = True
+        cases.append(c)
+    return cases
